@@ -6,6 +6,7 @@ from lib import pyvals as pv
 from lib.gallina import gQ, gbool
 from props import rec_common as rc
 from props import c17_s3
+from props import rec2_cases as r2
 
 ID = "C17"
 LOG_LEVEL_INVARIANT = True      # (harness/vp.py: a sample of the cases again with logging at DEBUG; same observables)
@@ -165,6 +166,8 @@ def generate(rng, tier):
     # S3 storage-level rule over histories: several cassettes with a size-based calculator in one process, each with
     # the generator it constructed itself (same history => same decisions, whatever the other cassettes do)
     cases += c17_s3.generate(rng, tier)
+    # a recorded operation inside which other scopes of the recorder open and close (nested replay / nested operation call)
+    cases += r2.nested_scope_cases()
     # seeded real Random: same seed twice, and a twin history that differs only in content and outcome
     n = 60 if tier == "quick" else 2000
     for seed in ([7] if tier == "quick" else [7, 11, 13]):
@@ -279,6 +282,8 @@ def direct(case, obs):
             fails.append(("s3-wrong-decision", "ratio %s draw %s: stored=%s, rule says %s" % (case["ratio"], case["draw"], obs["kept"], want)))
     elif case["kind"] == "s3hist":
         fails += c17_s3.direct(case, obs)
+    elif r2.is_rec2(case):
+        fails += r2.direct_sampling(case, obs)
     else:
         if obs["a1"] != obs["a2"]:
             fails.append(("not-reproducible", "same seed, same history: decisions differ"))
@@ -301,7 +306,7 @@ def direct(case, obs):
 def log_invariant_view(case, obs):
     """recorder histories and scripted S3 decisions are deterministic; the multi-cassette S3 histories carry sizes and draws
     of real generators that vary from run to run"""
-    return obs if case.get("kind") in ("history", "s3") else None
+    return obs if case.get("kind") in ("history", "s3", "nested_scope") else None
 
 
 def features(case):
@@ -326,6 +331,8 @@ def features(case):
         return fs
     if case["kind"] == "s3hist":
         return c17_s3.features(case)
+    if r2.is_rec2(case):
+        return r2.features(case)
     if case["kind"] == "seeded":
         sd = seed_value(case)
         return {"seeded", "seed:%s:%s" % (type(sd).__name__, "falsy" if not sd else "negative" if isinstance(sd, (int, float)) and sd < 0
